@@ -22,7 +22,9 @@ if [ ! -d $base/repo ]; then
 fi
 rm -rf $base/harness
 mkdir -p $base/harness
-cp -r /verif/harness/Cargo.toml /verif/harness/Cargo.lock /verif/harness/vmodel /verif/harness/props $base/harness/
+cp -r /verif/harness/Cargo.toml /verif/harness/Cargo.lock /verif/harness/vmodel /verif/harness/props /verif/harness/mc01 $base/harness/
+rm -rf $base/harness-ct; mkdir -p $base/harness-ct; cp -r /verif/harness-ct/ctwrap /verif/harness-ct/c01 /verif/harness-ct/Cargo.toml /verif/harness-ct/Cargo.lock $base/harness-ct/
+sed -i "s#path = \"/repo\"#path = \"$base/repo\"#" $base/harness-ct/Cargo.toml
 mkdir -p $base/harness/.cargo
 printf '[net]\noffline = true\n[build]\ntarget-dir = "%s/target"\n' $base > $base/harness/.cargo/config.toml
 sed -i "s#path = \"/repo\"#path = \"$base/repo\"#" $base/harness/Cargo.toml
